@@ -67,7 +67,9 @@ def strategy_(draw, tier):
     b.cycles = draw(st.booleans())
     b.tips = draw(st.integers(0, 2)) == 0
     nchrom = draw(st.integers(1, 3))
-    names = draw(st.permutations(["chr1", "chr2", "chrX", "chr10_alt", "chr1.mat", "chr1.pat", "complete"]))[:nchrom]
+    pool = draw(st.sampled_from([["chr1", "chr2", "chrX", "chr10_alt", "chr1.mat", "chr1.pat", "complete"]] * 3
+                                + [["1", "11", "21", "2", "X", "chr1"], ["chr1", "Achr1", "1", "r1", "chr11"]]))  # names that are suffixes of each other
+    names = draw(st.permutations(pool))[:nchrom]
     for name in names:
         c = b.chain(name, draw(elements()))
         if len(c["nodes"]) == 1 and draw(st.booleans()):
